@@ -93,6 +93,11 @@ def _run_tlc(cwd, root, cfg, workers=1, trace=None, timeout=900, simulate=None, 
     if env_extra:
         env.update(env_extra)
     meta = os.path.join(cwd, "states_" + root + "_" + os.path.basename(cfg))
+    # TLC unpacks the standard modules into java.io.tmpdir on every start and never removes them: give every run
+    # its own directory next to its state directory and remove it afterwards
+    jtmp = meta + "_tmp"
+    os.makedirs(jtmp, exist_ok=True)
+    env["JAVA_TOOL_OPTIONS"] = jopts + f" -Djava.io.tmpdir={jtmp}"
     gc = ["-XX:+UseSerialGC"] if workers == 1 else ["-XX:+UseParallelGC", f"-XX:ParallelGCThreads={max(2, workers)}"]
     if workers == 1 and heap == "8g":
         heap = "3g"
@@ -116,6 +121,7 @@ def _run_tlc(cwd, root, cfg, workers=1, trace=None, timeout=900, simulate=None, 
         raise ToolError(f"TLC timed out after {timeout}s on {root}/{cfg}")
     finally:
         shutil.rmtree(meta, ignore_errors=True)
+        shutil.rmtree(jtmp, ignore_errors=True)
     r = {"rc": p.returncode, "out": out, "wall": time.time() - t}
     m = re.search(r"(\d+) states generated, (\d+) distinct states found", out)
     if m:
